@@ -301,6 +301,10 @@ impl World for SemWorld {
         m
     }
 
+    fn pending(&self) -> usize {
+        self.futs.values().filter(|x| x.polled && !x.done).count()
+    }
+
     fn repoll_op(&self, f: u32) -> Option<String> {
         self.futs.get(&f).filter(|x| !x.done).map(|x| format!("poll {} {}", f, x.last_waker))
     }
